@@ -95,7 +95,15 @@ def _reparse_raw_base(
             a = copy_root.a
 
             for field, idx in path:
-                if len(body := getattr(a, field)) != 1 or (field == 'body' and a.__class__ is If and a.orelse):  # the second is an `else` or `elif` which attached itself to our `if _:` wrapper
+                a_cls = a.__class__
+
+                if (len(body := getattr(a, field)) != 1
+                    or (field == 'body' and a_cls is If and a.orelse)  # an `else` or `elif` which attached itself to our `if _:` wrapper
+                    or (a_cls in (Try, TryStar) and (  # our `try` wrapper
+                        a.orelse  # an `else` which attached itself to it
+                        or (a.handlers if field == 'body' else
+                            (a.finalbody or ((parent := self.parent) and a_cls is not parent.a.__class__)))  # a `finally` which attached itself to it, or `except` <-> `except*` changes what the parent is
+                ))):
                     copy_root._unmake_fst_tree()
 
                     raise _ReparseShapeChanged
@@ -104,6 +112,16 @@ def _reparse_raw_base(
 
             lineno, col_offset, need_block, no_block = shape_check
             a_pos = a.pattern if a.__class__ is match_case else a  # match_case has no position of its own
+
+            if need_block and a.__class__ is not Match:  # only the header was reparsed with a dummy ` pass` body appended and the old body, orelse, etc... will be grafted on
+                if (a.__class__ is not self.a.__class__  # those fields may not exist or be allowed for another kind of block
+                    or len(body := a.body) != 1
+                    or (b := body[0]).__class__ is not Pass
+                    or b.end_col_offset != len(copy_root._lines[b.end_lineno - 1].encode())  # must be OUR dummy at the end of the header line, otherwise the header now has a body of its own or ends in a comment
+                ):
+                    copy_root._unmake_fst_tree()
+
+                    raise _ReparseShapeChanged
 
             if ((need_block and a.__class__ not in ASTS_LEAF_BLOCK)  # only the header was reparsed and the old body will be grafted on, must still be a block
                 or (no_block and a.__class__ in ASTS_LEAF_BLOCK)  # statement does not start its line (follows a block header colon or a semicolon) so it can not become a block statement
